@@ -456,9 +456,11 @@ func (b *Board) IsPseudoLegal(m move.Move) bool {
 		}
 
 		if RankBB(SeventhRank.FromPerspectiveOf(b.STM))&fromBB != 0 {
-			if m.Promo() == NoPiece {
+			if m.Promo() < Knight || m.Promo() > Queen {
 				return false
 			}
+		} else if m.Promo() != NoPiece {
+			return false
 		}
 
 		switch Abs(from.File() - to.File()) {
